@@ -91,11 +91,11 @@ func vhFinCheckLoad(s *FinalizationStore, m *vhFinModel, h uint64) {
 	}
 }
 
-// VH_C16_Finalization: up to two symbolic saves, then save or load with symbolic height.
+// VH_C16_Finalization: up to two (thorough: three) symbolic saves, then save or load with symbolic height.
 func VH_C16_Finalization() {
 	s := NewFinalizationStore()
 	m := &vhFinModel{}
-	n := verifrt.Choose("prefix-ops", 3)
+	n := verifrt.Choose("prefix-ops", vhMaxPrefix()+1)
 	for i := 0; i < n; i++ {
 		vhFinSave(s, m)
 	}
@@ -195,11 +195,11 @@ func vhCHCheckLoad(s *CommittedHeaderStore, m *vhCHModel, h uint64) {
 	}
 }
 
-// VH_C16_CommittedHeader: up to two symbolic saves, then save or load with symbolic height.
+// VH_C16_CommittedHeader: up to two (thorough: three) symbolic saves, then save or load with symbolic height.
 func VH_C16_CommittedHeader() {
 	s := NewCommittedHeaderStore()
 	m := &vhCHModel{}
-	n := verifrt.Choose("prefix-ops", 3)
+	n := verifrt.Choose("prefix-ops", vhMaxPrefix()+1)
 	for i := 0; i < n; i++ {
 		vhCHSave(s, m)
 	}
